@@ -199,7 +199,8 @@ def finish(prop, tier, seed, k1, tres, t0):
         else:
             undecided += 1
             undecided_list.append(a)
-    nobl = len(agg) - nbounded      # bounded stand-ins are reported separately, never as proof obligations
+    # bounded stand-ins and recorded known findings are reported separately, never among the proof obligations
+    nobl = len(agg) - nbounded - len([1 for k, a in known_hits if not a['bounded']])
     # ---- output
     os.makedirs(os.path.join(ROOT, 'evidence'), exist_ok=True)
     rdir = os.path.join(ROOT, 'replays', prop)
